@@ -1845,6 +1845,13 @@ func (vm *VM) execWsGetUptime() error {
 }
 
 // valueToInterface converts a VM Value to a Go interface{}
+// ToInterface converts a VM value to the plain Go representation the
+// interpreter uses (int64, float64, string, bool, nil, []interface{},
+// map[string]interface{}).
+func ToInterface(v Value) interface{} {
+	return valueToInterface(v)
+}
+
 func valueToInterface(v Value) interface{} {
 	switch val := v.(type) {
 	case IntValue:
